@@ -233,7 +233,39 @@ let pure_main () =
                    | "server" -> validate_server_x s
                    | "servermask" -> validate_server_mask_x s
                    | "prefixed" -> validate_prefixed_channel_x s
+                   | "pwhash" -> valid_hash_x s
                    | _ -> false)
+        | "KA" ->
+            (* KA <pong_timeout> <horizon> <time>:<P|O|X> ...   (P = server PING, O = client PONG, X = other) *)
+            let evs = List.filter_map (fun tok ->
+              match String.split_on_char ':' tok with
+              | [t; k] -> Some (n_of_decimal t, (match k with "P" -> KPing | "O" -> KPong | _ -> KOther))
+              | _ -> None) (Array.to_list (Array.sub f 3 (Array.length f - 3))) in
+            (match ka_run_x (n_of_decimal f.(1)) None evs (n_of_decimal f.(2)) with
+             | Some t -> "closed " ^ string_of_int (int_of_n t)
+             | None -> "open")
+        | "FM" ->
+            (* structured configuration: name=<hex> pw=<hex|-> cliname=<hex|-> cert=0/1 key=0/1 oper:<n>:<pw> user:<n>:<nick>:<pw|-> chan:<n> *)
+            let toks = Array.to_list (Array.sub f 1 (Array.length f - 1)) in
+            let name = ref [] and pw = ref None and cliname = ref None and cert = ref false and key = ref false in
+            let opers = ref [] and users = ref [] and chans = ref [] in
+            let o s = if s = "-" then None else Some (hs s) in
+            List.iter (fun t ->
+              match String.split_on_char ':' t with
+              | ["oper"; n; p] -> opers := !opers @ [{ ro_name = hs n; ro_password = hs p }]
+              | ["user"; n; k; p] -> users := !users @ [{ ru_name = hs n; ru_nick = hs k; ru_password = o p }]
+              | ["chan"; n] -> chans := !chans @ [hs n]
+              | _ ->
+                (match String.index_opt t '=' with
+                 | Some i ->
+                     let k = String.sub t 0 i and v = String.sub t (i + 1) (String.length t - i - 1) in
+                     (match k with
+                      | "name" -> name := hs v | "pw" -> pw := o v | "cliname" -> cliname := o v
+                      | "cert" -> cert := (v = "1") | "key" -> key := (v = "1") | _ -> ())
+                 | None -> ())) toks;
+            string_of_bool (config_accept_x
+              { rw_name = !name; rw_password = !pw; rw_opers = !opers; rw_users = !users; rw_chans = !chans }
+              { cl_name = !cliname; cl_cert = !cert; cl_key = !key })
         | "G" -> let (t, c) = target_type_x (arg 1) in
                  let bit b v = if b then v else 0 in
                  Printf.sprintf "%d %s"
